@@ -694,6 +694,10 @@ def r34(ctx: Ctx) -> RuleReport:
         facts0 = facts_at(cfg, IN, pm, r)
 
         def split(e, facts):
+            if isinstance(e, ast.Call) and dotted(e.func) == 'json.dumps' and len(e.args) == 1 and isinstance(e.args[0], ast.Name) and e.args[0].id != p and not e.keywords:
+                d0 = single_def(ctx, q, e.args[0])
+                if isinstance(d0, (ast.IfExp, ast.Call)):
+                    e = ast.copy_location(ast.Call(func=e.func, args=[d0], keywords=[]), e)
             if isinstance(e, ast.IfExp):
                 from ..cfg import _split
                 split(e.body, facts | _split(e.test, True))
@@ -736,6 +740,10 @@ def r34(ctx: Ctx) -> RuleReport:
         if d == 'json.dumps':
             json_seen = True
             arg = v.args[0] if v.args else None
+            if isinstance(arg, ast.Name) and arg.id != p:
+                d_ = single_def(ctx, q, arg)
+                if isinstance(d_, ast.Call):
+                    arg = d_                    # text = str(constant); json.dumps(text)
             arg_ok = len(v.args) == 1 and isinstance(arg, ast.Call) and isinstance(arg.func, ast.Name) \
                 and arg.func.id == 'str' and len(arg.args) == 1 and isinstance(arg.args[0], ast.Name) \
                 and arg.args[0].id == p and len(ctx.cg.local_assigns(q).get(p, [])) == 0
@@ -820,9 +828,38 @@ def r34(ctx: Ctx) -> RuleReport:
 
 
 def _check_evaluate(ctx, rep, ev: FuncInfo):
+    """evaluate may be split into sequential phases: `return _check(_read(text))` with module-level one-argument helpers.  Each obligation is
+    then looked for in the phase that holds the construct it is about; a later phase's parameter is "the value so far"."""
+    body = [x for x in ev.node.body if not (isinstance(x, ast.Expr) and isinstance(x.value, ast.Constant))]
+    chain = []
+    if len(body) == 1 and isinstance(body[0], ast.Return) and isinstance(body[0].value, ast.Call):
+        e = body[0].value
+        while isinstance(e, ast.Call) and isinstance(e.func, ast.Name) and len(e.args) == 1 and not e.keywords:
+            f = ctx.repo.maybe_func('penman.constant', e.func.id)
+            if f is None or len(f.positional) != 1:
+                chain = []
+                break
+            chain.append(f)
+            e = e.args[0]
+        if not (chain and isinstance(e, ast.Name) and e.id == ev.positional[0]):
+            chain = []
+    if not chain:
+        return _check_evaluate_one(ctx, rep, ev, first=True, last=True)
+    chain.reverse()
+    seen_loads = any(any(t.kind == 'ext' and t.name == 'json.loads' for t in ts) for f in chain for _, ts in ctx.cg.calls_in(f))
+    rep.oblige('evaluate parses with json.loads', seen_loads, '', ev.loc(), key='evaluate uses json.loads', positive=False)
+    filt_any = False
+    for i, f in enumerate(chain):
+        filt_any = _check_evaluate_one(ctx, rep, f, first=(i == 0), last=False, quiet=True) or filt_any
+    rep.oblige('values other than None/str/int/float are refused with ConstantError', filt_any, '', ev.loc(),
+               key='penman.constant:evaluate: isinstance filter', positive=False)
+
+
+def _check_evaluate_one(ctx, rep, ev: FuncInfo, first: bool, last: bool, quiet: bool = False):
     p = ev.positional[0]
     loads = [c for c, ts in ctx.cg.calls_in(ev) if any(t.kind == 'ext' and t.name == 'json.loads' for t in ts)]
-    rep.oblige('evaluate parses with json.loads', len(loads) >= 1, '', ev.loc(), key='evaluate uses json.loads', positive=False)
+    if not quiet:
+        rep.oblige('evaluate parses with json.loads', len(loads) >= 1, '', ev.loc(), key='evaluate uses json.loads', positive=False)
     cfg = CFG(ev.node)
     IN = cond_facts(cfg)
     pm = ctx.repo.parent_map(ev.node)
@@ -908,8 +945,9 @@ def _check_evaluate(ctx, rep, ev: FuncInfo):
             raised = [norm(b.exc.func) for b in n.body if isinstance(b, ast.Raise) and isinstance(b.exc, ast.Call)]
             if tn is not None and {'str', 'int', 'float'} <= tn <= {'str', 'int', 'float', 'NoneType'} and 'ConstantError' in raised:
                 filt = True
-    rep.oblige('values other than None/str/int/float are refused with ConstantError', filt, '', ev.loc(),
-               key='penman.constant:evaluate: isinstance filter', positive=False)
+    if not quiet:
+        rep.oblige('values other than None/str/int/float are refused with ConstantError', filt, '', ev.loc(),
+                   key='penman.constant:evaluate: isinstance filter', positive=False)
     # every returned value is: the text itself, None, or what json.loads returned (through locals)
     from ..resolve import view as _view
     from ..cfg import def_value as _defv
@@ -949,19 +987,20 @@ def _check_evaluate(ctx, rep, ev: FuncInfo):
         if not ok_source(r.value, r):
             bad_src.append(norm(r.value)[:40] if r.value is not None else 'None')
     rep.oblige('every value evaluate returns is the text itself, None, or what json.loads returned', not bad_src,
-               '' if not bad_src else f'other sources: {bad_src}', ev.loc(), key='penman.constant:evaluate: result provenance', positive=False)
+               '' if not bad_src else f'other sources: {bad_src}', ev.loc(), key=f'penman.constant:{ev.qualname}: result provenance', positive=False)
     conv = [n for n in walk_local(ev.node) if isinstance(n, ast.Call) and isinstance(n.func, ast.Name) and n.func.id in ('int', 'float', 'complex', 'eval')
             ]
     rep.oblige('numbers are recognised by the JSON number grammar only (no int()/float() on the text)', not conv,
                '' if not conv else f'{[norm(c)[:40] for c in conv]}: int()/float() accept texts that are not JSON numbers (leading zeros, '
                                    f'non-ASCII digits, underscores, surrounding blanks) and raise ValueError on others',
-               ev.loc(), key='penman.constant:evaluate: no ad-hoc number conversion', positive=True)
+               ev.loc(), key=f'penman.constant:{ev.qualname}: no ad-hoc number conversion', positive=True)
     raises = set()
     for n in walk_local(ev.node):
         if isinstance(n, ast.Raise) and n.exc is not None:
             raises.add(norm(n.exc.func) if isinstance(n.exc, ast.Call) else norm(n.exc))
     rep.oblige('evaluate raises only ConstantError explicitly', raises <= {'ConstantError'}, f'{sorted(raises)}',
-               ev.loc(), key='penman.constant:evaluate: explicit raises', positive=True)
+               ev.loc(), key=f'penman.constant:{ev.qualname}: explicit raises', positive=True)
+    return filt
 
 
 def try_fold_typemap(ctx):
